@@ -91,3 +91,23 @@ Qed.
 (* a refusal happens only when the table is full, and leaves it untouched *)
 Lemma new_style_refused k reg e : new_style k reg = Err e -> Z.of_nat (length reg) = MaxCellStyles.
 Proof. intros H. exact (proj1 (new_style_err _ _ _ H)). Qed.
+
+(* registering the definition read back by GetStyle returns that very id and changes nothing *)
+Lemma find_tok_nth k : forall l i n, NoDup l -> nth_error l n = Some k -> find_tok k l i = Some (i + Z.of_nat n).
+Proof.
+  induction l as [|x l IH]; intros i n Hn Hk; [destruct n; discriminate|].
+  inversion Hn as [|? ? Hx Hl]; subst. cbn [find_tok]. destruct n as [|n]; cbn [nth_error] in Hk.
+  - inversion Hk; subst. rewrite Z.eqb_refl. f_equal. lia.
+  - destruct (Z.eqb_spec x k) as [->|N]; [exfalso; apply Hx; eapply nth_error_In; eauto|].
+    rewrite (IH (i + 1) n Hl Hk). f_equal. lia.
+Qed.
+
+Theorem new_style_of_get reg id k : NoDup reg -> get_style reg id = Some k -> new_style k reg = Ok (id, reg).
+Proof.
+  intros Hn. unfold get_style. destruct (Z.ltb_spec id 0); [discriminate|]. intros Hk.
+  unfold new_style. rewrite (find_tok_nth k reg 0 (Z.to_nat id) Hn Hk). do 2 f_equal. lia.
+Qed.
+
+Theorem history_idem ks ids reg' id k : run_styles ks init_reg = (ids, reg') -> get_style reg' id = Some k ->
+  new_style k reg' = Ok (id, reg').
+Proof. intros H. apply new_style_of_get. exact (proj1 (history_dedup _ _ _ H)). Qed.
